@@ -25,6 +25,12 @@ import (
 // what happened instead ("runerr", "hostpanic", "nodelim": the fixed text was not found around the
 // value - then out is the whole output).  No decoding and no expectation is computed here: the
 // TLA+ Trace specification decodes and judges.
+//
+// Case {id, at, segs}: a URL program - the content of ONE URL attribute (at = "href": <a href="...">,
+// at = "srcset": <img srcset="...">) made of several segments, each {k:"t", b: literal template text}
+// or {k:"v", b: the string shown there by {{ xN }}}.
+// Observation {id, ctx:"url_prog", s:[], at, segs, out, st}: out is the rendered attribute value
+// (between the quotes).
 
 type context struct {
 	name string
@@ -89,16 +95,117 @@ func render(c *context, s string) (out []byte, st string) {
 	return b[len(c.pre) : len(b)-len(c.post)], "ok"
 }
 
+type seg struct {
+	K string `json:"k"`
+	B []int  `json:"b"`
+}
+
+const (
+	progPost = `">`
+	maxVars  = 8
+)
+
+// progPres is the template text in front of the attribute value, per attribute.
+var progPres = map[string]string{"href": `<a href="`, "srcset": `<img srcset="`}
+
+// progTemplates caches the built template of every program shape (its source text).
+var progTemplates sync.Map
+
+// progGlobals declares x1..x8 as string variables whose values are given to Run.
+var progGlobals = func() native.Declarations {
+	d := native.Declarations{}
+	for i := 1; i <= maxVars; i++ {
+		d[fmt.Sprintf("x%d", i)] = (*string)(nil)
+	}
+	return d
+}()
+
+// program renders the segments as the content of one href attribute: literal segments are template
+// text, value segments are {{ x1 }}, {{ x2 }}, ... in order.
+func program(id int, at string, segs []seg) map[string]any {
+	if at == "" {
+		at = "href"
+	}
+	progPre, ok := progPres[at]
+	if !ok {
+		fmt.Fprintf(os.Stderr, "driver: unknown attribute %q in case %d\n", at, id)
+		os.Exit(2)
+	}
+	var src bytes.Buffer
+	vars := map[string]any{}
+	src.WriteString(progPre)
+	for _, sg := range segs {
+		switch sg.K {
+		case "t":
+			src.Write(drv.BytesOf(sg.B))
+		case "v":
+			n := len(vars) + 1
+			if n > maxVars {
+				fmt.Fprintf(os.Stderr, "driver: more than %d values in case %d\n", maxVars, id)
+				os.Exit(2)
+			}
+			name := fmt.Sprintf("x%d", n)
+			src.WriteString("{{ " + name + " }}")
+			vars[name] = string(drv.BytesOf(sg.B))
+		default:
+			fmt.Fprintf(os.Stderr, "driver: unknown segment kind %q in case %d\n", sg.K, id)
+			os.Exit(2)
+		}
+	}
+	src.WriteString(progPost)
+	rec := map[string]any{"id": id, "ctx": "url_prog", "s": []int{}, "at": at, "segs": segs}
+	out, st := func() (out []byte, st string) {
+		defer func() {
+			if r := recover(); r != nil {
+				out, st = []byte(fmt.Sprint(r)), "hostpanic"
+			}
+		}()
+		var t *scriggo.Template
+		if v, ok := progTemplates.Load(src.String()); ok {
+			t = v.(*scriggo.Template)
+		} else {
+			var err error
+			t, err = scriggo.BuildTemplate(scriggo.Files{"index.html": src.Bytes()}, "index.html",
+				&scriggo.BuildOptions{Globals: progGlobals})
+			if err != nil {
+				return []byte(err.Error()), "builderr"
+			}
+			progTemplates.Store(src.String(), t)
+		}
+		var buf bytes.Buffer
+		if err := t.Run(&buf, vars, nil); err != nil {
+			return []byte(err.Error()), "runerr"
+		}
+		b := buf.Bytes()
+		if len(b) < len(progPre)+len(progPost) || !bytes.HasPrefix(b, []byte(progPre)) || !bytes.HasSuffix(b, []byte(progPost)) {
+			return b, "nodelim"
+		}
+		return b[len(progPre) : len(b)-len(progPost)], "ok"
+	}()
+	rec["out"], rec["st"] = drv.Ints(out), st
+	return rec
+}
+
 func main() {
 	drv.Main(&drv.Sub{
 		Each: func(raw json.RawMessage, seed int64) []any {
 			buildOnce.Do(build)
 			var k struct {
-				ID int      `json:"id"`
-				S  []int    `json:"s"`
-				Cx []string `json:"cx"`
+				ID   int      `json:"id"`
+				S    []int    `json:"s"`
+				Cx   []string `json:"cx"`
+				Segs []seg    `json:"segs"`
+				At   string   `json:"at"`
 			}
 			drv.Must(json.Unmarshal(raw, &k))
+			if k.Segs != nil {
+				for i := range k.Segs {
+					if k.Segs[i].B == nil {
+						k.Segs[i].B = []int{}
+					}
+				}
+				return []any{program(k.ID, k.At, k.Segs)}
+			}
 			if k.S == nil {
 				k.S = []int{}
 			}
